@@ -178,6 +178,14 @@ impl Engine for TaskEngine {
         let ops = ["run", "wake", "wakev", "clone", "dropw", "cancel", "ppoll", "dropr"];
         let scripts = ["cp cwp r", "cwp wp r", "ccp vp sdr", "cr", "cp p p", "cxp p", "ccxr"];
         let mut out = Vec::new();
+        // real threads waking one idle task at the same moment
+        for (k, n) in if tier == Tier::Quick { vec![(2, 3000), (3, 1500)] } else { vec![(2, 60000), (3, 30000), (4, 20000), (2, 60000)] } {
+            for kind in ["spawn", "forget"] {
+                let mut lines = vec![format!("case task {kind}"), "script cp".to_string(), "run".to_string(), format!("racewake {k} {n}")];
+                finish(&mut lines);
+                out.push(Case { lines });
+            }
+        }
         for kind in ["spawn", "forget"] {
             for sc in scripts {
                 for len in 1..=maxlen {
@@ -344,6 +352,73 @@ impl Engine for TaskEngine {
                             obs("")
                         }
                         None => "no-waker".into(),
+                    }
+                }
+                ["racewake", k, n] => {
+                    // `k` threads wake the idle task through the same stored waker at (as nearly as possible) the same
+                    // moment, `n` rounds with a swept skew; after each round exactly one Runnable must exist; it is
+                    // run (the future returns Pending) and the task is idle again
+                    let (k, n): (usize, usize) = (k.parse().unwrap(), n.parse().unwrap());
+                    let guard = sh.wakers.lock().unwrap();
+                    match guard.last() {
+                        None => "no-waker".into(),
+                        Some(w) => {
+                            use std::sync::atomic::AtomicUsize;
+                            let go = AtomicUsize::new(0);
+                            let done = AtomicUsize::new(0);
+                            let mut worst = 1usize;
+                            std::thread::scope(|sc| {
+                                for t in 0..k {
+                                    let (go, done) = (&go, &done);
+                                    sc.spawn(move || {
+                                        for r in 1..=n {
+                                            let mut spins = 0u32;
+                                            while go.load(Ordering::Acquire) < r {
+                                                spins += 1;
+                                                if spins % 2000 == 0 {
+                                                    std::thread::yield_now();
+                                                } else {
+                                                    std::hint::spin_loop();
+                                                }
+                                            }
+                                            for _ in 0..((r * (t + 1)) % 48) {
+                                                std::hint::spin_loop();
+                                            }
+                                            w.wake_by_ref();
+                                            done.fetch_add(1, Ordering::Release);
+                                        }
+                                    });
+                                }
+                                for r in 1..=n {
+                                    go.store(r, Ordering::Release);
+                                    let mut spins = 0u32;
+                                    while done.load(Ordering::Acquire) < r * k {
+                                        spins += 1;
+                                        if spins % 2000 == 0 {
+                                            std::thread::yield_now();
+                                        } else {
+                                            std::hint::spin_loop();
+                                        }
+                                    }
+                                    let rs: Vec<VRunnable> = sh.queue.lock().unwrap().drain(..).collect();
+                                    if rs.len() != 1 {
+                                        worst = worst.max(rs.len());
+                                        if rs.len() > 1 {
+                                            two_runnables.store(true, Ordering::SeqCst);
+                                        }
+                                    }
+                                    for r in rs {
+                                        r.run();
+                                    }
+                                }
+                            });
+                            wakes += 1;
+                            if worst > 1 {
+                                format!("racewake {worst} Runnables at once")
+                            } else {
+                                obs("")
+                            }
+                        }
                     }
                 }
                 ["wakev"] => {
